@@ -502,6 +502,57 @@ fn gadget_run<U: CircuitUni>(ctx: &Ctx, idx: u64, out: &mut RunOut) {
                 out.violate(key, c, json!({"gadget": true, "universe": U::NAME, "program": p, "fault": f, "seed": seed}));
             }
         }
+        // byzantine prover at matrix depth (hook H2): after an honest run, one hinted output (a bit
+        // or a coefficient of a decomposition) gets another value in every table cell that carries
+        // its slot; nothing else is recomputed, so the committed decomposition is not the
+        // canonical one of the committed `x`
+        matrix_reassign::<U>(&p, seed, out);
+    }
+}
+
+fn matrix_reassign<U: CircuitUni>(p: &crate::gprog::Program, seed: u64, out: &mut RunOut) {
+    use crate::props::c04;
+    let cfg = ProverCfg::default();
+    let Ok(h) = c04::honest::<U>(p, &cfg, seed) else {
+        out.count("matrix_arm_honest_pipeline_failed");
+        return;
+    };
+    let slots: Vec<(u64, bool)> = h
+        .circuit
+        .ops
+        .iter()
+        .filter_map(|op| if let Op::Hint { outputs, .. } = op { Some(outputs.iter().map(|w| (w.0 as u64, outputs.len() != U::D || U::D == 1)).collect::<Vec<_>>()) } else { None })
+        .flatten()
+        .collect();
+    // all coefficient outputs, and the first, the last and a middle bit of every bit decomposition
+    let nbit = slots.iter().filter(|x| x.1).count();
+    let mut bit_no = 0usize;
+    for (slot, is_bit) in slots {
+        if is_bit {
+            bit_no += 1;
+            if !(bit_no == 1 || bit_no == nbit || bit_no == nbit / 2 + 1) {
+                continue;
+            }
+        }
+        if !h.dec.bus.contains_key(&slot) {
+            out.count("hinted_slot_not_on_bus");
+            continue;
+        }
+        let f = c04::CellFault { kind: "slot_reassign".into(), table: 0, row: slot as usize, col: 0, delta: if is_bit { 0 } else { 1 }, row2: 0 };
+        let Some(forged) = c04::forge::<U>(&h, &f) else { continue };
+        out.evals += 1;
+        out.count(if is_bit { "fired_matrix_reassign_bit" } else { "fired_matrix_reassign_coeff" });
+        out.distinct.insert(crate::core::prng::fnv64(format!("matrix:{}:{is_bit}", U::NAME).as_bytes()));
+        let (accepted, _) = c04::prove_forged::<U>(&h, forged);
+        if accepted {
+            out.violate(
+                format!("matrix_reassign_{}:{}", if is_bit { "bit" } else { "coeff" }, U::NAME),
+                format!("hinted decomposition output in witness slot {slot} reassigned in every committed cell of that slot (nothing recomputed): the proof is ACCEPTED, so the committed decomposition is not tied to the decomposed value"),
+                json!({"gadget": true, "matrix": true, "universe": U::NAME, "program": p, "slot": slot, "seed": seed, "fault": {"kind": "matrix_reassign", "call": 0, "mode": 0, "k": 0}}),
+            );
+        } else {
+            out.count("matrix_reassign_rejected");
+        }
     }
 }
 
@@ -622,6 +673,18 @@ pub fn replay(ctx: &Ctx, body: &Value) -> i32 {
         };
         let seed = d["seed"].as_u64().unwrap_or(1);
         let uni = d["universe"].as_str().unwrap_or("U-KB4").to_string();
+        if d["matrix"].as_bool() == Some(true) {
+            let mut tmp = RunOut::default();
+            if uni == "U-BB4" { matrix_reassign::<crate::uni::Bb4>(&p, seed, &mut tmp) } else { matrix_reassign::<crate::uni::Kb4>(&p, seed, &mut tmp) };
+            let key = body["key"].as_str().unwrap_or("");
+            return if tmp.violations.iter().any(|v| v.key == key) {
+                println!("VIOLATION property={} replay={}", ctx.prop, ctx.replay.as_ref().unwrap().display());
+                1
+            } else {
+                println!("replay did not reproduce");
+                0
+            };
+        }
         let r = if uni == "U-BB4" { gadget_case::<crate::uni::Bb4>(&p, &f, seed) } else { gadget_case::<crate::uni::Kb4>(&p, &f, seed) };
         return match r {
             Ok(o) => {
